@@ -21,10 +21,12 @@ import (
 	"io"
 	"log/slog"
 	"math/rand"
+	"reflect"
 	"sort"
 	"sync"
 	"testing"
 	"time"
+	"unsafe"
 
 	"github.com/ethereum/go-ethereum/common"
 	"github.com/libp2p/go-libp2p/core/host"
@@ -36,13 +38,16 @@ import (
 )
 
 type c14Ev struct {
-	K      string // enrol | closed | lookup | track | start | end | rmstream
-	P      int    // peer index (enrol, closed, lookup, rmstream)
-	C      int    // connection serial within the peer (enrol, closed)
-	A      int    // address index proven in the handshake (enrol)
-	R      int    // role proven in the handshake (enrol)
-	Closed bool   // Conn.IsClosed() at the time of addPeer (enrol); addPeer then answers true and tracks nothing
-	S      int    // stream index (lookup, track, start, end, rmstream)
+	K string // enrol | closed | lookup | track | start | end | rmstream | enrolrace
+	//              enrolrace: addPeer on an open connection that closes while addPeer runs: its
+	//              Disconnected notification is started (in its own goroutine, as the swarm does)
+	//              from inside the IsClosed query, which then still answers false
+	P      int  // peer index (enrol, closed, lookup, rmstream)
+	C      int  // connection serial within the peer (enrol, closed)
+	A      int  // address index proven in the handshake (enrol)
+	R      int  // role proven in the handshake (enrol)
+	Closed bool // Conn.IsClosed() at the time of addPeer (enrol); addPeer then answers true and tracks nothing
+	S      int  // stream index (lookup, track, start, end, rmstream)
 }
 
 type c14In struct {
@@ -62,8 +67,10 @@ type c14Snap struct {
 }
 
 type c14Step struct {
+	Ev    c14Ev // the event this step reports (an "enrolrace" input yields an enrol and a closed step)
 	Ret   int64
 	Panic bool
+	Seen  bool // false: the state right after the event could not be observed
 	Snap  c14Snap
 }
 
@@ -73,14 +80,22 @@ type c14Obs struct{ Steps []c14Step }
 
 type c14Conn struct {
 	network.Conn
-	pid    peer.ID
-	p, k   int
-	closed bool
+	pid      peer.ID
+	p, k     int
+	closed   bool
+	notified bool   // its Disconnected notification has been delivered
+	race     func() // close-during-enrol: runs once, inside the next IsClosed call
 }
 
 func (c *c14Conn) RemotePeer() peer.ID { return c.pid }
-func (c *c14Conn) IsClosed() bool      { return c.closed }
-func (c *c14Conn) ID() string          { return fmt.Sprintf("c14-%d-%d", c.p, c.k) }
+func (c *c14Conn) IsClosed() bool {
+	if f := c.race; f != nil {
+		c.race = nil
+		f()
+	}
+	return c.closed
+}
+func (c *c14Conn) ID() string { return fmt.Sprintf("c14-%d-%d", c.p, c.k) }
 
 type c14Stream struct {
 	network.Stream
@@ -219,7 +234,7 @@ func c14Addr(i int) common.Address {
 	return a
 }
 
-func c14Run(in c14In, hdrFrame []byte) (obs c14Obs) {
+func c14Run(in c14In, hdrFrame []byte, slow int) (obs c14Obs) {
 	w := &c14World{addrs: map[common.Address]int{}}
 	for i := 0; i < in.NA; i++ {
 		w.addrs[c14Addr(i)] = i
@@ -305,14 +320,7 @@ func c14Run(in c14In, hdrFrame []byte) (obs c14Obs) {
 		}
 		reg.mu.RLock()
 		for p := 0; p < in.NP; p++ {
-			row := []int64{-1}
-			if cs, found := reg.connections[pids[p]]; found {
-				row = []int64{}
-				for c := range cs {
-					row = append(row, int64(c.(*c14Conn).k))
-				}
-				sort.Slice(row, func(i, j int) bool { return row[i] < row[j] })
-			}
+			row := c14ConnRow(reg, pids[p], conns[p])
 			sn.Conns = append(sn.Conns, row)
 			row = []int64{-1}
 			if ss, found := reg.streams[pids[p]]; found {
@@ -350,7 +358,61 @@ func c14Run(in c14In, hdrFrame []byte) (obs c14Obs) {
 	}
 
 	for _, ev := range in.Evs {
-		var st c14Step
+		if ev.K == "enrolrace" && conns[ev.P][ev.C].notified {
+			ev.K, ev.Closed = "enrol", true // already closed and notified: an ordinary late enrolment
+		}
+		if ev.K == "enrolrace" {
+			c := conns[ev.P][ev.C]
+			c.closed = false
+			enrolEv := c14Ev{K: "enrol", P: ev.P, C: ev.C, A: ev.A, R: ev.R}
+			closedEv := c14Ev{K: "closed", P: ev.P, C: ev.C}
+			done := make(chan struct{})
+			var fired, before, notePanic bool
+			notify := func() {
+				defer close(done)
+				defer func() {
+					if r := recover(); r != nil {
+						notePanic = true
+					}
+				}()
+				reg.Disconnected(nil, c)
+			}
+			c.race = func() {
+				fired = true
+				go notify()
+				// give the notification a generous head start: it either finishes (the
+				// registry lock is free) or stays parked on the lock held by addPeer
+				t := time.NewTimer(time.Duration(slow) * 20 * time.Millisecond)
+				defer t.Stop()
+				select {
+				case <-done:
+					before = true
+				case <-t.C:
+				}
+			}
+			var ret int64
+			if reg.addPeer(c, &p2p.Peer{EthAddress: c14Addr(ev.A), Type: p2p.PeerType(ev.R)}) {
+				ret = 1
+			}
+			c.race = nil
+			if !fired {
+				go notify() // addPeer did not ask IsClosed: the notification simply follows
+			}
+			c14Await("enrolrace", done)
+			c.closed = true
+			c.notified = true
+			sn := snapshot()
+			if before {
+				// the notification was processed before addPeer entered its critical section
+				obs.Steps = append(obs.Steps, c14Step{Ev: closedEv, Panic: notePanic},
+					c14Step{Ev: enrolEv, Ret: ret, Seen: true, Snap: sn})
+			} else {
+				obs.Steps = append(obs.Steps, c14Step{Ev: enrolEv, Ret: ret},
+					c14Step{Ev: closedEv, Panic: notePanic, Seen: true, Snap: sn})
+			}
+			continue
+		}
+		st := c14Step{Ev: ev, Seen: true}
 		func() {
 			defer func() {
 				if r := recover(); r != nil {
@@ -363,13 +425,17 @@ func c14Run(in c14In, hdrFrame []byte) (obs c14Obs) {
 			switch ev.K {
 			case "enrol":
 				c := conns[ev.P][ev.C]
-				c.closed = ev.Closed
+				// a connection whose closure has been notified answers IsClosed = true for ever
+				// (libp2p sets the flag before it notifies); the step reports the effective answer
+				c.closed = ev.Closed || c.notified
+				st.Ev.Closed = c.closed
 				if reg.addPeer(c, &p2p.Peer{EthAddress: c14Addr(ev.A), Type: p2p.PeerType(ev.R)}) {
 					st.Ret = 1
 				}
 			case "closed":
 				c := conns[ev.P][ev.C]
 				c.closed = true
+				c.notified = true
 				reg.Disconnected(nil, c)
 			case "lookup":
 				if streams[ev.S] != nil {
@@ -461,6 +527,48 @@ func c14Run(in c14In, hdrFrame []byte) (obs c14Obs) {
 	return obs
 }
 
+// the tracked connections of one peer, read through reflection so that the driver does not depend
+// on the representation of the field: [-1] = no entry; a set -> the sorted serials; a number n ->
+// [-2, n] (a representation the model does not have)
+func c14ConnRow(reg *peerRegistry, id peer.ID, mine []*c14Conn) []int64 {
+	f := reflect.ValueOf(reg).Elem().FieldByName("connections")
+	if !f.IsValid() || f.Kind() != reflect.Map {
+		return []int64{-3}
+	}
+	v := f.MapIndex(reflect.ValueOf(id).Convert(f.Type().Key()))
+	if !v.IsValid() {
+		return []int64{-1}
+	}
+	switch v.Kind() {
+	case reflect.Map:
+		row := []int64{}
+		for _, key := range v.MapKeys() {
+			k := key
+			for k.Kind() == reflect.Interface {
+				k = k.Elem()
+			}
+			serial := int64(-9)
+			if k.Kind() == reflect.Ptr {
+				for _, c := range mine {
+					if uintptr(unsafe.Pointer(c)) == k.Pointer() {
+						serial = int64(c.k)
+					}
+				}
+			}
+			row = append(row, serial)
+		}
+		sort.Slice(row, func(i, j int) bool { return row[i] < row[j] })
+		return row
+	case reflect.Int, reflect.Int8, reflect.Int16, reflect.Int32, reflect.Int64:
+		return []int64{-2, v.Int()}
+	case reflect.Uint, reflect.Uint8, reflect.Uint16, reflect.Uint32, reflect.Uint64:
+		return []int64{-2, int64(v.Uint())}
+	case reflect.Slice:
+		return []int64{-2, int64(v.Len())}
+	}
+	return []int64{-3}
+}
+
 // --- Coq terms ---------------------------------------------------------------------------------
 
 func c14Zs(v []int64) string {
@@ -481,7 +589,8 @@ func c14ConnTerm(p, k int) string { return coqPair(coqN(uint64(p)), coqN(uint64(
 
 func c14Coq(id int, in c14In, obs c14Obs) string {
 	var evs []string
-	for i, ev := range in.Evs {
+	for _, st := range obs.Steps {
+		ev := st.Ev
 		var t string
 		switch ev.K {
 		case "enrol":
@@ -500,12 +609,11 @@ func c14Coq(id int, in c14In, obs c14Obs) string {
 		case "rmstream":
 			t = coqApp("RemoveStream", coqN(uint64(ev.P)), coqN(uint64(ev.S)))
 		}
-		st := obs.Steps[i]
 		sn := st.Snap
 		snap := coqRecord("sn_over", c14Zss(sn.Over), "sn_under", c14Zss(sn.Under), "sn_conns", c14Zss(sn.Conns),
 			"sn_streams", c14Zss(sn.Streams), "sn_notes", c14Zs(sn.Notes), "sn_sw", c14Zs(sn.Sw),
 			"sn_ctx", c14Zs(sn.Ctx), "sn_started", c14Zs(sn.Started))
-		evs = append(evs, coqRecord("o_ev", t, "o_ret", coqZ(st.Ret), "o_panic", coqBool(st.Panic), "o_snap", snap))
+		evs = append(evs, coqRecord("o_ev", t, "o_ret", coqZ(st.Ret), "o_panic", coqBool(st.Panic), "o_seen", coqBool(st.Seen), "o_snap", snap))
 	}
 	return coqRecord("id", coqN(uint64(id)), "c_np", coqN(uint64(in.NP)), "c_nc", coqN(uint64(in.NC)),
 		"c_na", coqN(uint64(in.NA)), "c_ns", coqN(uint64(in.NS)), "c_evs", coqList(evs))
@@ -705,6 +813,46 @@ func c14GenLookupRace(r *rand.Rand) c14In {
 	return g.in
 }
 
+// a connection closes while addPeer is running on it
+func c14GenCloseDuringEnrol(r *rand.Rand) c14In {
+	g := c14NewGen(r, false)
+	p := r.Intn(g.in.NP)
+	race := func(k int) {
+		g.add(c14Ev{K: "enrolrace", P: p, C: k, A: p, R: g.roles[p]})
+		g.enrolled[[2]int{p, k}] = true
+		g.notified[[2]int{p, k}] = true
+	}
+	switch r.Intn(4) {
+	case 0: // the only connection
+		race(0)
+	case 1: // the peer is already registered through another connection, which closes later
+		g.enrol(p, 1)
+		race(0)
+		g.closeConn(p, 1)
+	case 2: // a stream is waiting between lookup and track
+		g.add(c14Ev{K: "enrol", P: p, C: 1, A: p, R: g.roles[p]})
+		g.enrolled[[2]int{p, 1}] = true
+		g.swPeer[0] = p
+		g.add(c14Ev{K: "lookup", S: 0, P: p})
+		g.sw[0] = 1
+		g.closeConn(p, 1)
+		race(0)
+		g.streamStep(0)
+	default:
+		race(r.Intn(g.in.NC))
+		race(r.Intn(g.in.NC))
+	}
+	s := 1 + r.Intn(g.in.NS-1)
+	g.swPeer[s] = p
+	g.add(c14Ev{K: "lookup", S: s, P: p})
+	g.sw[s] = 1
+	g.streamStep(s)
+	for i := r.Intn(4); i > 0; i-- {
+		g.randomEvent()
+	}
+	return g.in
+}
+
 func TestVerifC14(t *testing.T) {
 	e := vfOpen(t, 100)
 	defer e.Close()
@@ -723,7 +871,7 @@ func TestVerifC14(t *testing.T) {
 				return
 			}
 		}
-		obs := c14Run(in, hdr)
+		obs := c14Run(in, hdr, e.Slow)
 		e.Emit(class, in, obs, func(id int) string { return c14Coq(id, in, obs) })
 	}
 	for _, raw := range e.Replay {
@@ -742,6 +890,8 @@ func TestVerifC14(t *testing.T) {
 	run("pinned", small(c14Ev{K: "enrol"}, c14Ev{K: "lookup"}, c14Ev{K: "closed"}, c14Ev{K: "track"}, c14Ev{K: "start"}))
 	run("pinned", small(c14Ev{K: "enrol"}, c14Ev{K: "lookup"}, c14Ev{K: "track"}, c14Ev{K: "start"}, c14Ev{K: "closed"}, c14Ev{K: "end"}))
 	run("pinned", small(c14Ev{K: "lookup"}, c14Ev{K: "track"}, c14Ev{K: "enrol"}, c14Ev{K: "closed"}, c14Ev{K: "closed"}))
+	run("pinned", small(c14Ev{K: "enrolrace"}))
+	run("pinned", small(c14Ev{K: "enrolrace"}, c14Ev{K: "lookup"}, c14Ev{K: "track"}, c14Ev{K: "start"}))
 	run("pinned", c14In{NP: 2, NC: 2, NA: 2, NS: 2, Evs: []c14Ev{{K: "enrol", P: 0, C: 0, A: 0, R: 1}, {K: "enrol", P: 0, C: 1, A: 0, R: 1},
 		{K: "lookup", S: 0, P: 0}, {K: "track", S: 0}, {K: "start", S: 0}, {K: "closed", P: 0, C: 0}, {K: "lookup", S: 1, P: 1},
 		{K: "closed", P: 0, C: 1}, {K: "end", S: 0}}})
@@ -777,8 +927,14 @@ func TestVerifC14(t *testing.T) {
 			run("multi-conn", c14GenMultiConn(e.rng))
 		case 4:
 			run("close-before-enrol", c14GenCloseBeforeEnrol(e.rng))
-		case 5, 6:
+		case 5:
 			run("lookup-race", c14GenLookupRace(e.rng))
+		case 6:
+			if i%16 == 6 {
+				run("lookup-race", c14GenLookupRace(e.rng))
+			} else {
+				run("close-during-enrol", c14GenCloseDuringEnrol(e.rng))
+			}
 		default:
 			run("address-collision", c14GenRandom(e.rng, true))
 		}
